@@ -146,8 +146,11 @@ def check_result(t, V0, F0, visual, n, key, case, tol=0.0, use_attr=True, expect
         if use_attr and "vtag" in n.vertex_attributes and len(n.vertex_attributes["vtag"]) == len(V1):
             if not (np.asarray(n.vertex_attributes["vtag"]).astype(int) == vt).all():
                 return bad("vertex_attributes and vertex colours / uv are attached to different vertices", {"attr": n.vertex_attributes["vtag"], "tags": vt})
-    # cached normals must belong to the current triangles
-    fn = n._cache.cache.get("face_normals") if n._cache.id_current == n.__hash__() else None
+    # the normals the mesh now reports (the cached ones, if any survived) must belong to the current triangles
+    try:
+        fn = n.face_normals
+    except Exception:
+        fn = None
     if fn is not None and np.shape(fn) == F1.shape and len(F1):
         tri = V1[F1]
         g = np.cross(tri[:, 1] - tri[:, 0], tri[:, 2] - tri[:, 0])
